@@ -38,15 +38,16 @@ type BatchCfg struct {
 	Gated    bool
 	Strict   bool
 	// harness-only
-	Shape   string // prep payload shape: results | anys | ptrs | maps | strings | ints | single | nil
-	ExSty   string // exec style r | a
-	Via     string // builder | node | flow
-	Sched   string // "script" (follow release order), "random", "free", "barrier"
-	CtxKind string
-	GenSeed string
-	ModeSet bool  // error-handling mode was set explicitly
-	Barrier []int // barrier schedule: the items (1-based) that wait for each other; all others return at once
-	WarmC   int   // > 0: the same node object first performs a run with this concurrency, then is reconfigured
+	Shape    string // prep payload shape: results | anys | ptrs | maps | strings | ints | single | nil
+	ExSty    string // exec style r | a
+	Via      string // builder | node | flow
+	Sched    string // "script" (follow release order), "random", "free", "barrier"
+	CtxKind  string
+	GenSeed  string
+	ModeSet  bool  // error-handling mode was set explicitly
+	Barrier  []int // barrier schedule: the items (1-based) that wait for each other; all others return at once
+	ErrItems []int // items (1-based) that prep hands over as error Results (they are items like any other)
+	WarmC    int   // > 0: the same node object first performs a run with this concurrency, then is reconfigured
 }
 
 func parseBatchCfg(m map[string]any) BatchCfg {
@@ -57,6 +58,9 @@ func parseBatchCfg(m map[string]any) BatchCfg {
 		CtxKind: asStr(m["ctxkind"]), GenSeed: asStr(m["genseed"]), WarmC: asInt(m["warmc"])}
 	for _, a := range asList(m["barrier"]) {
 		c.Barrier = append(c.Barrier, asInt(a))
+	}
+	for _, a := range asList(m["erritems"]) {
+		c.ErrItems = append(c.ErrItems, asInt(a))
 	}
 	for _, a := range asList(m["acts"]) {
 		c.Acts = append(c.Acts, asInt(a))
@@ -95,10 +99,14 @@ func (c BatchCfg) toJSON() map[string]any {
 	for _, a := range c.Barrier {
 		bar = append(bar, a)
 	}
+	eit := []any{}
+	for _, a := range c.ErrItems {
+		eit = append(eit, a)
+	}
 	return map[string]any{"N": c.N, "n": c.Items, "c": c.C, "stopmode": c.StopMode, "w": c.W, "fb": c.Fb, "ctx0": c.Ctx0,
 		"cancel": c.Cancel, "acts": acts, "outs": outs, "preperr": c.PrepErr, "posterr": c.PostErr, "gated": c.Gated,
 		"strict": c.Strict, "shape": c.Shape, "exsty": c.ExSty, "via": c.Via, "sched": c.Sched, "ctxkind": c.CtxKind, "genseed": c.GenSeed,
-		"barrier": bar, "warmc": c.WarmC}
+		"barrier": bar, "warmc": c.WarmC, "erritems": eit}
 }
 
 // ---- script ----------------------------------------------------------------
@@ -282,6 +290,11 @@ func (b *batchRun) exec(arg Obs) (any, error, error) {
 	if arg.Tok > 0 && arg.Tok%1000 == 0 {
 		item = arg.Tok / 1000
 	}
+	if arg.IsErr && arg.ErrTok > 0 && arg.ErrTok%1000 == 0 && b.isErrItem(arg.ErrTok/1000) {
+		// the item is an error Result produced by prep: exec receives it like any other item
+		item = arg.ErrTok / 1000
+		arg = Obs{Tok: arg.ErrTok, Same: true, Wrap: "raw"}
+	}
 	b.mu.Lock()
 	g := b.gidLocked()
 	b.att[item]++
@@ -394,6 +407,15 @@ func (b *batchRun) fallback(prep any, err error) (any, error) {
 	return nil, b.reg.Err(fbErrTok(item))
 }
 
+func (b *batchRun) isErrItem(i int) bool {
+	for _, x := range b.cfg.ErrItems {
+		if x == i {
+			return true
+		}
+	}
+	return false
+}
+
 func (b *batchRun) itemTokens() []any {
 	l := []any{}
 	for i := 1; i <= b.cfg.Items; i++ {
@@ -422,7 +444,11 @@ func (b *batchRun) post(shared *flyt.SharedStore, items, results []flyt.Result) 
 	its := []any{}
 	for _, r := range items {
 		ob := b.reg.ObserveResult(r)
-		its = append(its, ob.Tok)
+		if ob.IsErr && ob.ErrTok > 0 {
+			its = append(its, ob.ErrTok)
+		} else {
+			its = append(its, ob.Tok)
+		}
 	}
 	slots := []any{}
 	for _, r := range results {
@@ -542,7 +568,11 @@ func (b *batchRun) build() *flyt.BatchNodeBuilder {
 			}
 			l := make([]flyt.Result, cfg.Items)
 			for i := range l {
-				l[i] = flyt.NewResult(b.reg.Payload(itemTok(i + 1)))
+				if b.isErrItem(i + 1) {
+					l[i] = flyt.NewErrorResult(b.reg.Err(itemTok(i + 1)))
+				} else {
+					l[i] = flyt.NewResult(b.reg.Payload(itemTok(i + 1)))
+				}
 			}
 			return l, nil
 		})
